@@ -205,7 +205,7 @@ def run_unit(us, pid, tier, repo, build, root):
         gen_crate(udir, bdir, repo, meta, log, functions)
     except ScanError as e:
         raise KaniUndecided('%s: extraction failed: %s' % (unit, e))
-    hs = [h for h in meta['harnesses'] if pid in h.get('props', [pid]) and (tier == 'thorough' or h.get('tier', 'quick') == 'quick')]
+    hs = [h for h in meta['harnesses'] if pid in h.get('props', [pid]) and h.get('tier', 'quick') != 'disabled' and (tier == 'thorough' or h.get('tier', 'quick') == 'quick')]
     if not hs:
         return dict(per_obligation=[], failed=[], trusted=[], functions=[], extraction_log=[], cmds=[], bounded=[], covers={}, solver_ms=0)
     names = [h['name'] for h in hs]
